@@ -45,6 +45,29 @@ pub fn build(id: &str) -> Option<Check> {
         "C18" => c18::check(),
         "C19" => c19::check(),
         "C20" => c20::check(),
+        // engine self-test: one case spins forever; the hang monitor must report it (exit 1)
+        "SELFTEST-HANG" => Some(Check {
+            id: "SELFTEST-HANG",
+            level: "exploration",
+            rule: "self-test",
+            assumptions: vec![],
+            subs: vec![crate::core::prop_hang(
+                "spin",
+                64,
+                64,
+                std::time::Duration::from_secs(3),
+                |_| proptest::prelude::any::<u8>(),
+                |x: &u8, _rec| {
+                    if *x == 7 {
+                        let mut n = 0u64;
+                        loop {
+                            n = std::hint::black_box(n.wrapping_add(1));
+                        }
+                    }
+                    Ok(())
+                },
+            )],
+        }),
         _ => None,
     }
 }
